@@ -19,6 +19,17 @@ func NewPool
   requires newFunc != nil
   ensures p != nil && fresh(p)
 
+// NewSlicePool: what the pool creates are slices of the requested length with
+// storage of their own - two objects made by the pool never share memory (the
+// closure handed to NewPool is run twice, symbolically, at that call).
+func NewSlicePool
+  requires l >= 0
+  at_call syncutil.NewPool prove pool_makes_separate_slices:
+    (let a = invoke(arg0) in let b = invoke(arg0) in
+     a != nil && b != nil && a != b && len(deref(a)) == l && len(deref(b)) == l &&
+     (l > 0 ==> ref(deref(a)) != ref(deref(b))))
+  ensures made: p != nil
+
 func (*Pool).Put
   trusted
   logged
